@@ -24,7 +24,7 @@ func init() {
 	Register(&Check{
 		ID:  "C11",
 		Run: runC11,
-		Rule: "every call sequence of length <= L (quick 3, thorough 4) over a per-document menu of (operation, variables) calls, on one parsed executable, for 16 documents rich in the suspected carriers " +
+		Rule: "every call sequence of length <= L (quick 3, thorough 4) over a per-document menu of (operation, variables) calls, on one parsed executable, for 17 documents rich in the suspected carriers " +
 			"(variables inside list / input-object literals, arguments out of order or omitted, several operations, a fragment spread under two container types, directives on variables, undeclared arguments, introspection fragments shared between operations, literals of another kind than the argument type) x RS/AS/FS; " +
 			"oracle: differential with a fresh parse per call + printed form unchanged. distinct = (document, strategy, sequence); non-trivial = sequence has >= 2 different calls",
 		Technique:      "explicit-state exploration of call histories on the real API with a fresh-parse differential oracle (no state merging)",
@@ -38,6 +38,9 @@ type c11Call struct {
 	Op   string                 `json:"op"`
 	Vars map[string]interface{} `json:"vars"`
 }
+
+// an Op that starts with c11LoadOp is not a request but a schema load on the same root (the parsed executable stays)
+const c11LoadOp = "LOAD:"
 
 type c11Base struct {
 	Name  string
@@ -133,6 +136,16 @@ func c11AllDocs() []c11Doc {
 		c11Doc{c11Base: c11Base{Name: "interface-fragment-under-two-objects", Calls: []c11Call{{"A", nil}, {"B", nil}, {"C", nil}}},
 			Text:   "query A { dog { ...F } } query B { cat { ...F } } query C { pets { ...F } dog { ...G } } fragment F on Pet { name(style: \"x\") } fragment G on Pet { name(short: true) }",
 			MkRoot: func() *ggql.Root { return c10PetRoot() }},
+		// the schema grows between two resolutions of one parsed request that already selects the fields to come
+		c11Doc{c11Base: c11Base{Name: "schema-extended-between-calls", Calls: []c11Call{{"", nil}, {c11LoadOp + "extend type Query { later: Int }\nextend type Box { weight: Int }\nextend interface Sized { weight: Int }\n", nil}, {"", map[string]interface{}{}}}},
+			Text: "{ first later box { size weight } sized { size weight ... on Box { weight } } }",
+			MkRoot: func() *ggql.Root {
+				root := ggql.NewRoot(c16Dummy{})
+				if err := root.ParseString("type Query { first: Int box: Box sized: Sized }\ninterface Sized { size: Int }\ntype Box implements Sized { size: Int }\n"); err != nil {
+					panic(core.EngineError{Msg: "C11 own schema refused: " + err.Error()})
+				}
+				return root
+			}},
 		c11Doc{c11Base: c11Base{Name: "literals-of-another-kind", Calls: []c11Call{{"", nil}, {"", map[string]interface{}{}}}}, Text: c11KindsText(), Own: true},
 	)
 }
@@ -306,6 +319,11 @@ func c11Run(c *core.Ctx, cd c11Doc, nc namedCfg, g *world.Graph, text string, se
 	for step, ci := range seq {
 		call := cd.Calls[ci]
 		calls = append(calls, call)
+		if strings.HasPrefix(call.Op, c11LoadOp) {
+			_ = root.ParseString(strings.TrimPrefix(call.Op, c11LoadOp)) // a second time it is refused (duplicates): the root stays as it is
+			before = canonExeString(exe.String())
+			continue
+		}
 		c.Eval()
 		got, pi := c11Resolve(root, run, exe, call)
 		detail := func(msg, want string) map[string]interface{} {
